@@ -72,6 +72,11 @@ def main():
         meta['checks'] = checks
         sh('python3 %s/translator/cxx2gallina.py %s/coq/Translated.v' % (VERIF, VERIF))
         out_dir = os.path.join(VERIF, 'seeded', '%s-%s' % (pid, name)); os.makedirs(out_dir, exist_ok=True)
+        old_meta = os.path.join(out_dir, 'meta.json')
+        if os.path.exists(old_meta):
+            om = json.load(open(old_meta))
+            if 'tests_with_patch' not in meta and 'tests_with_patch' in om: meta['tests_with_patch'] = om['tests_with_patch']
+            meta['earlier_evaluations'] = om.get('earlier_evaluations', []) + [{'evaluated_at': om.get('evaluated_at'), 'caught': {p: c.get('caught') for p, c in om.get('checks', {}).items()}}]
         shutil.copy(patch, os.path.join(out_dir, 'patch.diff')); shutil.copy(demo, os.path.join(out_dir, 'demo.cpp'))
         if os.path.exists(notes): shutil.copy(notes, os.path.join(out_dir, 'notes.md'))
         json.dump(meta, open(os.path.join(out_dir, 'meta.json'), 'w'), indent=1)
